@@ -100,7 +100,8 @@ theorem assignY_frame (ls : Rat) (g : G) :
   exact ⟨h.1, h.2.1⟩
 
 /-- every branch of `phase4Model` on more than one node ends with `assignYCoords` -/
-theorem phase4Model_is_assignY (cfg : Cfg) (g g4 : G) (hn : (g.nodes.size == 1) = false) (h : phase4Model cfg g = .ok g4) :
+theorem phase4Model_is_assignY (cfg : Cfg) (g g4 : G) (hn : (g.nodes.size == 1) = false) (hp : cfg.p4 ≠ 5)
+    (h : phase4Model cfg g = .ok g4) :
     ∃ g', g4 = assignYCoords cfg.ls g' := by
   unfold phase4Model at h
   simp only [hn, Bool.false_eq_true, if_false] at h
@@ -120,12 +121,13 @@ theorem phase4Model_is_assignY (cfg : Cfg) (g g4 : G) (hn : (g.nodes.size == 1) 
   · cases hs : BK.execBrandesKoepf cfg.bk cfg.ns g with
     | error e => simp [hs, Except.map] at h
     | ok r => simp only [hs, Except.map, Except.ok.injEq] at h; exact ⟨r, h.symm⟩
+  · rename_i heq; exact absurd heq hp
   · cases h
 
 /-- END TO END (SinkColoring, VAlign, PackRight, NetworkSimplex, Brandes–Köpf × every modelled router): in the state the composed
     model hands to result collection, all nodes of the i-th layer list carry the i-th band Y, the band Ys are those of
     `layerYs` (so `C03_bands_apart` applies to them), and the layer lists are those phase 4 left -/
-theorem C03_public_bands (cfg : Cfg) (g3 g4 g5 : G) (loops : List Nat) (hn : (g3.nodes.size == 1) = false)
+theorem C03_public_bands (cfg : Cfg) (g3 g4 g5 : G) (loops : List Nat) (hn : (g3.nodes.size == 1) = false) (hp : cfg.p4 ≠ 5)
     (h4 : phase4Model cfg g3 = .ok g4) (hwf : LayersWF g4) (h5 : phase5 cfg.p5 cfg.ls g4 = .ok g5)
     (i : Nat) (hi : i < g4.layers.toList.length) :
     (postProcess g5 loops).layers = g4.layers ∧
@@ -134,7 +136,7 @@ theorem C03_public_bands (cfg : Cfg) (g3 g4 g5 : G) (loops : List Nat) (hn : (g3
   have hgeo : GeomEq g4 (postProcess g5 loops) := GeomEq.trans (phase5_geom _ _ _ _ h5) (postProcess_geom g5 loops)
   refine ⟨hgeo.layers, ?_⟩
   intro n hnmem
-  obtain ⟨g', rfl⟩ := phase4Model_is_assignY cfg g3 g4 hn h4
+  obtain ⟨g', rfl⟩ := phase4Model_is_assignY cfg g3 g4 hn hp h4
   obtain ⟨hsz, hlay⟩ := assignY_frame cfg.ls g'
   have hwf' : LayersWF g' := ⟨by rw [← hlay]; exact hwf.nodup, fun m hm => by rw [← hsz]; exact hwf.bound m (by rw [hlay]; exact hm)⟩
   have hi' : i < g'.layers.toList.length := by rw [← hlay]; exact hi
@@ -152,7 +154,7 @@ theorem C03_public_bands (cfg : Cfg) (g3 g4 g5 : G) (loops : List Nat) (hn : (g3
     `g4` (the one phase 4 returned) such that the final state has exactly its layer lists and every node of the i-th list carries the
     i-th band Y `layerYs`; the well-formedness of the layer lists, assumed by `C03_band_y`, is itself a theorem about the pipeline
     (`layersWF_upto_phase4`) -/
-theorem C03_layoutComponent_bands (cfg : Cfg) (c : G × List Nat) (gf : G) (h2n : 2 ≤ c.1.nodes.size)
+theorem C03_layoutComponent_bands (cfg : Cfg) (c : G × List Nat) (gf : G) (h2n : 2 ≤ c.1.nodes.size) (hp : cfg.p4 ≠ 5)
     (h : layoutComponent (fun g => (orderWMedianP 24 g).map (·.1)) cfg c = .ok gf) :
     ∃ g4 : G, LayersWF g4 ∧ gf.layers = g4.layers ∧
       ∀ (i : Nat) (hi : i < g4.layers.toList.length), ∀ n ∈ (g4.layers.toList[i]).nodes,
@@ -188,7 +190,7 @@ theorem C03_layoutComponent_bands (cfg : Cfg) (c : G × List Nat) (gf : G) (h2n 
               rw [beq_eq_false_iff_ne]; omega
             refine ⟨g4, hwf4, ?_, fun i hi n hnm => ?_⟩
             · exact (GeomEq.trans (phase5_geom _ _ _ _ h5) (postProcess_geom g5 c.2)).layers
-            · exact (C03_public_bands cfg g3 g4 g5 c.2 hn h4 hwf4 h5 i hi).2 n hnm
+            · exact (C03_public_bands cfg g3 g4 g5 c.2 hn hp h4 hwf4 h5 i hi).2 n hnm
 
 /-! non-vacuity -/
 def exG3 : G :=
